@@ -1,5 +1,6 @@
 SPECIFICATION Spec
 CONSTANTS
+  H = 1
   N = 4
   MaxRound = 2
   MaxCrash = 2
